@@ -516,13 +516,15 @@ impl WritersHandle {
         #[cfg(flexi_logger_verif)]
         crate::verif_hooks::point("sc:sns_enter", None).ok();
         let max_level = new_spec.max_level();
-        self.spec
-            .write()
-            .map_err(|_| FlexiLoggerError::Poison)?
-            .update_from(new_spec);
+        // Keep the write lock until the global max level is updated as well: otherwise two
+        // concurrent calls can interleave such that the spec of one call stays active
+        // together with the (possibly lower) max level of the other call.
+        let mut spec_guard = self.spec.write().map_err(|_| FlexiLoggerError::Poison)?;
+        spec_guard.update_from(new_spec);
         #[cfg(flexi_logger_verif)]
         crate::verif_hooks::point("sc:sns_updated", None).ok();
         self.reconfigure(max_level);
+        drop(spec_guard);
         #[cfg(flexi_logger_verif)]
         crate::verif_hooks::point("sc:sns_exit", None).ok();
         Ok(())
